@@ -267,6 +267,37 @@ def search_rule(ctx):
     return res
 
 
+def _is_zeros_of(core, n):
+    """torch.zeros(n) in any spelling: with dtype= / device= keywords, followed by .byte() / .to(..) / .long() ..."""
+    e = core
+    for _ in range(4):
+        if isinstance(e, ast.Call) and isinstance(e.func, ast.Attribute) and e.func.attr in ("byte", "bool", "long", "int", "float", "to", "type", "contiguous") and not (isinstance(e.func.value, ast.Name) and e.func.value.id == "torch"):
+            e = e.func.value
+        else:
+            break
+    if isinstance(e, ast.Call) and norm_text(e.func) in ("torch.zeros",) and e.args:
+        a0 = e.args[0]
+        if isinstance(a0, (ast.Tuple, ast.List)) and len(a0.elts) == 1:
+            a0 = a0.elts[0]
+        return norm_text(a0) == n and len(e.args) == 1
+    return False
+
+
+def _is_ones_of(e, n):
+    """torch.ones(n) in any spelling (dtype= keyword, .float() ..)"""
+    for _ in range(4):
+        if isinstance(e, ast.Call) and isinstance(e.func, ast.Attribute) and e.func.attr in ("float", "double", "to", "type", "contiguous") and not (isinstance(e.func.value, ast.Name) and e.func.value.id == "torch"):
+            e = e.func.value
+        else:
+            break
+    if isinstance(e, ast.Call) and norm_text(e.func) == "torch.ones" and len(e.args) == 1:
+        a0 = e.args[0]
+        if isinstance(a0, (ast.Tuple, ast.List)) and len(a0.elts) == 1:
+            a0 = a0.elts[0]
+        return norm_text(a0) == n
+    return False
+
+
 def mask_rule(ctx):
     p = ctx.p
     res = RuleResult("UT-MASK", "mask constructors: alternating stride-2 pattern, prefix of length ceil(n/2), ceil(n/2) indices drawn without replacement; all start from zeros and add 1")
@@ -303,7 +334,7 @@ def mask_rule(ctx):
         for path in paths:
             core, stores = strip_stores(path.ret)
             ct = norm_text(core).replace(" ", "")
-            zero = ct.startswith("torch.zeros(%s)" % n)
+            zero = _is_zeros_of(core, n)
             okst = False
             if len(stores) == 1:
                 idx, val = stores[0]
@@ -326,7 +357,7 @@ def mask_rule(ctx):
     for path in _single_return(fi):
         path_conds[:] = [(et, pol) for et, raw, pol in path.conds]
         core, stores = strip_stores(path.ret)
-        zero = norm_text(core).replace(" ", "").startswith("torch.zeros(%s)" % n)
+        zero = _is_zeros_of(core, n)
         okst = False
         half = None
         if len(stores) == 1 and isinstance(stores[0][0], ast.Slice) and stores[0][0].lower is None and stores[0][0].step is None:
@@ -345,7 +376,7 @@ def mask_rule(ctx):
     for path in _single_return(fi):
         path_conds[:] = [(et, pol) for et, raw, pol in path.conds]
         core, stores = strip_stores(path.ret)
-        zero = norm_text(core).replace(" ", "").startswith("torch.zeros(%s)" % n)
+        zero = _is_zeros_of(core, n)
         okst = False
         if len(stores) == 1:
             idx = stores[0][0]
@@ -354,7 +385,7 @@ def mask_rule(ctx):
                 ns = kw.get("num_samples", idx.args[1] if len(idx.args) > 1 else None)
                 rep = kw.get("replacement", idx.args[2] if len(idx.args) > 2 else None)
                 w = kw.get("input", idx.args[0] if idx.args else None)
-                uniform = w is not None and norm_text(w).replace(" ", "").startswith("torch.ones(%s)" % n)
+                uniform = w is not None and _is_ones_of(w, n)
                 half = ceil_half(ns, n)
                 if half and (rep is None or (isinstance(rep, ast.Constant) and rep.value is False)) and uniform:
                     okst = True
